@@ -18,6 +18,7 @@ EXPLANATION = (
     "np.memmap call, the memmap is read-only with shape (self.ns, self.nc), and Reader.rl is ns / fs; (D3) the byte count behind "
     "the repaired duration is a fresh stat at open time, not the size the constructor cached (recording still in progress). That the exposed "
     "values equal the file prefix is NOT decided (numpy memmap semantics, trusted)."
+    ' (D2 as built) whether the duration is rewritten depends on nothing but the size disagreement and the presence of metadata: the disjunction of the path conditions of all rewrite stores must not depend on any other atom (e.g. a logging option).'
 )
 ASSUMPTIONS = [
     "file sizes, item sizes and channel counts are positive integers; int() of a positive quotient is its floor",
